@@ -247,11 +247,11 @@ def build():
   return Property(
     'C14', units,
     bounded=[Bounded('C14/A-STR/axioms_and_end_to_end', 'replay/c14_paths.py', ['--len', '5', '--comps', '7'], ['--len', '7', '--comps', '9'],
-                     "every string over the alphabet {a . / ; = ~ _} up to length 5 (quick) / 7 (thorough), and every path-like name of <= 7 / 9 components from {'..', '.', 'a', ''} joined by '/' used as untagged name, tagged series name, tag name and tag value: each A-STR axiom against CPython, and realpath of the real _getFilesystemPath text (executed from source with a stub `whisper`) against `confined`; plus injectivity on the well-formed untagged names of that domain",
+                     "every string over the alphabet {a . / ; = ~ _} up to length 5 (quick) / 7 (thorough), and every path-like name of <= 7 / 9 components from {'..', '.', 'a', ''} joined by '/' used as untagged name, tagged series name, tag name and tag value: each A-STR axiom against CPython, and realpath of the real _getFilesystemPath text (executed from source with a stub `whisper`) against `confined`; plus injectivity on the well-formed untagged names of that domain; the node path of the Ceres backend (encode with its default separator '.'): deterministic, injective on well-formed untagged names, confined under the documented CeresTree layout; a forked process asking for the two TAG_HASH_FILENAMES values in the opposite order gets the same paths",
                      "the axioms are assumptions about CPython's str methods and os.path (a dependency), validated on a bounded domain; they are not clauses of carbon proved by contract")],
     trusted_base=['A-ENGINE', 'A-SMT', 'A-STR'],
     assumptions=[
       "A-STR axioms R1-R5 (module docstring) about str.replace / lstrip / join / slicing, sha256().hexdigest() and os.path.join are assumed; what is proved is that encode()/_getFilesystemPath compose them so that the result is confined",
       "confined(d, p): p = d + '/' + r with r not starting with '/' and no '..' component (symlinks inside the data directory are out of scope)",
-      "CeresDatabase is not covered: ceres is not installed and CeresTree.getFilesystemPath (join(root, nodePath.replace('.', os.sep))) is outside /repo; note that for Ceres an untagged name starting with '/' is not stripped by encode(sep='.') -- not replayable here",
+      "CeresDatabase itself cannot be run (ceres is not installed; CeresTree.getFilesystemPath = join(root, nodePath.replace('.', os.sep)) is outside /repo): its node path is TaggedSeries.encode with the default separator, which the bounded clause covers together with that documented layout; note that for Ceres an untagged name starting with '/' is not stripped by encode(sep='.')",
     ])
